@@ -6,7 +6,11 @@ import os
 _PATH = os.environ.get("NUCS_VERIF_PROGRESS")
 
 
+LAST = [None]
+
+
 def mark(obj):
+    LAST[0] = obj
     if not _PATH:
         return
     tmp = _PATH + ".tmp"
